@@ -29,6 +29,10 @@ def main(argv=None):
         from gtsim import engine, util
 
         record = json.load(open(a.replay))
+        if os.sep + "findings" + os.sep in os.path.abspath(a.replay):
+            # the stored history of an open known finding is replayed with the finding matcher off,
+            # so that the recorded violation itself is shown
+            os.environ["GTSIM_NO_FINDINGS"] = "1"
         v = engine.replay_record(record["property"], record)
         if v is None:
             print(f"replay {a.replay}: no violation")
